@@ -427,39 +427,61 @@ def cli_lemma(o, L, MC):
     o.extra["run_ok_paths"] = n_ok
 
 
+PROGRAM_NOREFS = "res /plain on get -> <{ 'n num }>;\nres /other/{ 'id int } on delete -> <>;\n"
+
+
+def base_variants():
+    """(name, yaml text): the full base, one without `components`, one whose components has no `schemas`."""
+    full = BASE_YAML
+    i = full.index("components:")
+    j = full.index("security:\n- apiKey")
+    no_comp = full[:i] + full[j:]
+    k = full.index("\n  schemas:") + 1
+    l = full.index("\n  responses:\n    NotFound") + 1
+    no_schemas = full[:k] + full[l:]
+    return [("full", full), ("no-components", no_comp), ("no-schemas", no_schemas)]
+
+
 def real_cli_roundtrip(o):
-    """Compile PROGRAM with the real oal-cli against BASE_YAML; list fields where output != base."""
+    """Compile programs (with and without named schemas) against base variants with the real oal-cli;
+    list fields where the output differs from the base / from the base-less output."""
     try:
         cli = build_cli()
     except Exception as ex:
         return None, None, "oal-cli build failed: %s" % str(ex)[-300:]
     rdir = new_replay_dir("C14", "base-roundtrip")
-    res = run_cli(cli, {"main.oal": PROGRAM, "base.yaml": BASE_YAML}, base="base.yaml", workdir=rdir)
     with open(os.path.join(rdir, "cmd"), "w") as f:
         f.write("#!/bin/sh\ncd /verif && exec ./check C14 --replay %s\n" % rdir)
-    if res["rc"] != 0 or not res["target"]:
-        return ["<oal-cli failed rc=%s>" % res["rc"]], rdir, res["out"][-500:]
-    out = mirlib.yaml_to_obj(res["target"])
-    base = mirlib.yaml_to_obj(BASE_YAML)
-    res2 = run_cli(cli, {"main.oal": PROGRAM}, workdir=os.path.join(rdir, "nobase"))
-    nob = mirlib.yaml_to_obj(res2["target"]) if res2["target"] else {}
     diffs = []
-    for k in sorted(set(base) | set(out)):
-        if k in ("paths", "components"):
-            continue
-        if base.get(k) != out.get(k):
-            diffs.append(k)
-    bc, oc = base.get("components", {}), out.get("components", {})
-    for k in sorted(set(bc) | set(oc)):
-        if k == "schemas":
-            continue
-        if bc.get(k) != oc.get(k):
-            diffs.append("components." + k)
-    if out.get("paths") != nob.get("paths"):
-        diffs.append("paths (differs from the base-less output)")
-    if oc.get("schemas") != nob.get("components", {}).get("schemas"):
-        diffs.append("components.schemas (differs from the base-less output)")
-    return diffs, rdir, "rc=0, %d top-level keys compared" % len(set(base) | set(out))
+    n = 0
+    for pname, prog in (("refs", PROGRAM), ("norefs", PROGRAM_NOREFS)):
+        res2 = run_cli(cli, {"main.oal": prog}, workdir=os.path.join(rdir, pname + "-nobase"))
+        nob = mirlib.yaml_to_obj(res2["target"]) if res2["target"] else {}
+        for bname, btext in base_variants():
+            tag = "%s/%s" % (pname, bname)
+            res = run_cli(cli, {"main.oal": prog, "base.yaml": btext}, base="base.yaml", workdir=os.path.join(rdir, pname + "-" + bname))
+            n += 1
+            if res["rc"] != 0 or not res["target"]:
+                diffs.append("%s: <oal-cli failed rc=%s>" % (tag, res["rc"]))
+                continue
+            out = mirlib.yaml_to_obj(res["target"])
+            base = mirlib.yaml_to_obj(btext)
+            for k in sorted(set(base) | set(out)):
+                if k in ("paths", "components"):
+                    continue
+                if base.get(k) != out.get(k):
+                    diffs.append("%s: %s" % (tag, k))
+            bc, oc = base.get("components") or {}, out.get("components") or {}
+            for k in sorted(set(bc) | set(oc)):
+                if k == "schemas":
+                    continue
+                if bc.get(k) != oc.get(k):
+                    diffs.append("%s: components.%s" % (tag, k))
+            if out.get("paths") != nob.get("paths"):
+                diffs.append("%s: paths (differ from the base-less output)" % tag)
+            if (oc.get("schemas") or {}) != ((nob.get("components") or {}).get("schemas") or {}):
+                diffs.append("%s: components.schemas (differ from the base-less output)" % tag)
+    return diffs, rdir, "%d compilations compared field by field" % n
 
 
 def replay(path):
